@@ -11,6 +11,11 @@
  *        entry  = path | mem | file | cb        (which xmp_test_module* / xmp_load_module* pair)
  *        helper = fail | ok      what a spawned helper does: exit 77 / print file "helper_payload", exit 0
  *   smix <id> <samplepath>
+ *   pair <id> <order> <modpath A> <instrument path A|none> <modpath B> <instrument path B|none>
+ *        two threads, one context each, xmp_load_module concurrently.  The fopen interposer parks a thread that is
+ *        about to open a companion file until the other thread is about to open one of its own, then both snapshot
+ *        the path they were handed (order 0: start together, 1: B starts once A is parked, 2: the reverse;
+ *        env C10_NOBARRIER: no parking, for TSan).  Log lines: "tsys <A|B> <function> <args>", "retp <id> <A|B> <rc>".
  *
  * Output (on the original stdout, unbuffered, so that a forked child can add to it):
  *   begin <id> <phase>            phase = test | load | smix
@@ -30,6 +35,8 @@
 #include <sys/types.h>
 #include <sys/wait.h>
 #include <xmp.h>
+#include <pthread.h>
+#include <time.h>
 
 static int logfd = 1;
 static volatile int in_library;
@@ -69,13 +76,57 @@ static void hexstr(char *out, size_t cap, const char *s)
 	out[2 * i] = 0;
 }
 
+/* ---- two-thread scenario: which of the two loading threads is this (0 = neither) */
+static __thread int tl_who;
+static __thread const char *tl_modpath;
+static int pair_barrier;		/* hold threads at companion opens to force interleavings */
+static pthread_mutex_t pair_mu = PTHREAD_MUTEX_INITIALIZER;
+static pthread_cond_t pair_cv = PTHREAD_COND_INITIALIZER;
+static int pair_arrived[2], pair_copied[2], pair_finished[2];
+
+static void pair_wait(int *mine, int *theirs, int other)
+{
+	/* caller holds pair_mu; wait until the other thread caught up (or is done); bounded, never a deadlock */
+	int rounds = 0;
+	while (*theirs < *mine && !pair_finished[other] && rounds++ < 40) {
+		struct timespec ts;
+		clock_gettime(CLOCK_REALTIME, &ts);
+		ts.tv_nsec += 100 * 1000 * 1000;
+		if (ts.tv_nsec >= 1000000000L) {
+			ts.tv_sec++;
+			ts.tv_nsec -= 1000000000L;
+		}
+		pthread_cond_timedwait(&pair_cv, &pair_mu, &ts);
+	}
+}
+
+/* A thread about to open a companion file is parked until the other thread is about
+ * to open one of its own (so both have finished resolving their paths); then both
+ * take a snapshot of the path they were handed, and only then either continues. */
+static void pair_rendezvous(const char *path, char *snap, size_t cap)
+{
+	int me = tl_who - 1, ot = 1 - me;
+	pthread_mutex_lock(&pair_mu);
+	pair_arrived[me]++;
+	pthread_cond_broadcast(&pair_cv);
+	pair_wait(&pair_arrived[me], &pair_arrived[ot], ot);
+	snprintf(snap, cap, "%s", path);
+	pair_copied[me]++;
+	pthread_cond_broadcast(&pair_cv);
+	pair_wait(&pair_copied[me], &pair_copied[ot], ot);
+	pthread_mutex_unlock(&pair_mu);
+}
+
 static void log1(const char *fn, const char *a)
 {
 	char h[9000];
 	if (!in_library)
 		return;
 	hexstr(h, sizeof(h), a);
-	logf_("sys %s %s\n", fn, h);
+	if (tl_who)
+		logf_("tsys %c %s %s\n", 'A' + tl_who - 1, fn, h);
+	else
+		logf_("sys %s %s\n", fn, h);
 }
 
 static void log2(const char *fn, const char *a, const char *b)
@@ -85,7 +136,10 @@ static void log2(const char *fn, const char *a, const char *b)
 		return;
 	hexstr(h1, sizeof(h1), a);
 	hexstr(h2, sizeof(h2), b);
-	logf_("sys %s %s %s\n", fn, h1, h2);
+	if (tl_who)
+		logf_("tsys %c %s %s %s\n", 'A' + tl_who - 1, fn, h1, h2);
+	else
+		logf_("sys %s %s %s\n", fn, h1, h2);
 }
 
 /* ------------------------------------------------------------- file system */
@@ -110,6 +164,13 @@ WRAP_PATH1(char *, mktemp, (char *path), (path))
 FILE *__real_fopen(const char *path, const char *mode);
 FILE *__wrap_fopen(const char *path, const char *mode)
 {
+	if (tl_who && pair_barrier && path && tl_modpath && strcmp(path, tl_modpath) != 0) {
+		/* what is opened (and logged) is what the buffer holds once both threads have resolved their paths */
+		char snap[4200];
+		pair_rendezvous(path, snap, sizeof(snap));
+		log2("fopen", snap, mode);
+		return __real_fopen(snap, mode);
+	}
 	log2("fopen", path, mode);
 	return __real_fopen(path, mode);
 }
@@ -446,6 +507,63 @@ static void run_op(const char *id, const char *entry, char *modpath, char *ctxin
 	free(data);
 }
 
+struct pair_arg {
+	int who, order;
+	const char *modpath, *ins;
+	int rc;
+};
+
+static void *pair_thread(void *p)
+{
+	struct pair_arg *a = (struct pair_arg *)p;
+	xmp_context ctx;
+	int me = a->who - 1, ot = 1 - me;
+
+	/* start orders: 0 both at once, 1 B starts when A is parked at its first companion open, 2 the reverse */
+	if (pair_barrier && ((a->order == 1 && a->who == 2) || (a->order == 2 && a->who == 1))) {
+		int one = 1;
+		pthread_mutex_lock(&pair_mu);
+		pair_wait(&one, &pair_arrived[ot], ot);
+		pthread_mutex_unlock(&pair_mu);
+	}
+	tl_who = a->who;
+	tl_modpath = a->modpath;
+	ctx = xmp_create_context();
+	if (a->ins)
+		xmp_set_instrument_path(ctx, a->ins);
+	a->rc = xmp_load_module(ctx, a->modpath);
+	if (a->rc == 0)
+		xmp_release_module(ctx);
+	xmp_free_context(ctx);
+	tl_who = 0;
+	pthread_mutex_lock(&pair_mu);
+	pair_finished[me] = 1;
+	pthread_cond_broadcast(&pair_cv);
+	pthread_mutex_unlock(&pair_mu);
+	return NULL;
+}
+
+/* two contexts load two modules concurrently */
+static void run_pair(const char *id, int order, char *ma, char *ia, char *mb, char *ib)
+{
+	struct pair_arg a = { 1, order, ma, ia, -99 }, b = { 2, order, mb, ib, -99 };
+	pthread_t ta, tb;
+
+	memset(pair_arrived, 0, sizeof(pair_arrived));
+	memset(pair_copied, 0, sizeof(pair_copied));
+	memset(pair_finished, 0, sizeof(pair_finished));
+	pair_barrier = getenv("C10_NOBARRIER") == NULL;
+	unsetenv("XMP_INSTRUMENT_PATH");
+	logf_("begin %s pair\n", id);
+	in_library = 1;
+	pthread_create(&ta, NULL, pair_thread, &a);
+	pthread_create(&tb, NULL, pair_thread, &b);
+	pthread_join(ta, NULL);
+	pthread_join(tb, NULL);
+	in_library = 0;
+	logf_("retp %s A %d\nretp %s B %d\nendpair %s\n", id, a.rc, id, b.rc, id);
+}
+
 static void run_smix(const char *id, char *path)
 {
 	xmp_context ctx = xmp_create_context();
@@ -493,6 +611,21 @@ int main(int argc, char **argv)
 			free(mp);
 			free(ci);
 			free(ei);
+		} else if (!strcmp(kind, "pair")) {
+			char d[9000];
+			int order;
+			char *ma, *ia, *mb, *ib;
+			if (sscanf(line, "%*s %63s %d %8999s %8999s %8999s %8999s", id, &order, a, b, c, d) != 6)
+				continue;
+			ma = unhex(a);
+			ia = unhex(b);
+			mb = unhex(c);
+			ib = unhex(d);
+			run_pair(id, order, ma, ia, mb, ib);
+			free(ma);
+			free(ia);
+			free(mb);
+			free(ib);
 		} else if (!strcmp(kind, "smix")) {
 			char *p;
 			if (sscanf(line, "%*s %63s %8999s", id, a) != 2)
